@@ -214,8 +214,8 @@ def check(chk: Check) -> None:
     chk.trusted += ["protobuf's own parser limits (recursion depth 100, length checks)", "allocation events of the interpreter's models (seq*n, deque(maxlen))"]
     chk.undecided += ["wall time, peak RSS, interpreter crashes: runtime quantities, not decidable statically here"]
     chk.rule("C17.PATH.iterator-nesting", "the frame iterator handed out does not nest lazy iterators once per input frame", floor=1)
-    alloc_cap(chk)
-    entry_id_cap(chk)
-    iterator_nesting(chk)
-    recursion_shape(chk)
-    loop_progress(chk)
+    chk.part("alloc-cap", lambda: alloc_cap(chk))
+    chk.part("entry-id-cap", lambda: entry_id_cap(chk))
+    chk.part("iterator-nesting", lambda: iterator_nesting(chk))
+    chk.part("recursion-shape", lambda: recursion_shape(chk))
+    chk.part("loop-progress", lambda: loop_progress(chk))
